@@ -19,6 +19,7 @@ pub struct Universe {
     pub max_erased: usize,
     pub base_full: Echelon, // precode rows + padding rows
     pub base_gf2: Echelon,  // LDPC rows + padding rows only
+    pub src_prefix: Vec<usize>, // src_prefix[i] = number of source symbols among universe items 0..i
 }
 
 pub fn make_universe(k: u32, esis: Vec<u32>, threshold: u32, max_erased: usize) -> Universe {
@@ -35,7 +36,11 @@ pub fn make_universe(k: u32, esis: Vec<u32>, threshold: u32, max_erased: usize) 
         base_full.insert(rfcref::lt_row(&p, x));
         base_gf2.insert(rfcref::lt_row(&p, x));
     }
-    Universe { k, p, esis, packets, rows, data, threshold, max_erased, base_full, base_gf2 }
+    let mut src_prefix = vec![0usize; esis.len() + 1];
+    for (i, &e) in esis.iter().enumerate() {
+        src_prefix[i + 1] = src_prefix[i] + (e < k) as usize;
+    }
+    Universe { k, p, esis, packets, rows, data, threshold, max_erased, base_full, base_gf2, src_prefix }
 }
 
 pub fn standard_esis(k: u32, near: u32) -> Vec<u32> {
@@ -94,11 +99,8 @@ impl Lattice for Model<'_> {
         NodeState { dec: new_block_decoder(self.u.k, 1, Some(self.u.threshold)), full: self.u.base_full.clone(), gf2: self.u.base_gf2.clone(), nsrc: 0, nrecv: 0, erased: 0 }
     }
     fn skip(&self, st: &mut NodeState, from: usize, to: usize) -> bool {
-        let k = self.u.k as usize;
-        // items 0..k are the source symbols (ESI = index)
-        let lo = from.min(k);
-        let hi = to.min(k);
-        st.erased += hi - lo;
+        // number of source symbols among the skipped items (the universe may be in any order)
+        st.erased += self.u.src_prefix[to] - self.u.src_prefix[from];
         st.erased <= self.u.max_erased
     }
     fn deliver(&self, s: &mut NodeState, i: usize, path: &[usize], check: bool, l: &mut Local) {
@@ -208,6 +210,9 @@ pub struct Job {
     pub near: u32,
     pub max_erased: usize,
     pub threshold: u32,
+    /// deliver the universe in reverse order (far repair, near repair descending, source descending), so that
+    /// source symbols arrive after repair symbols and after failed solves
+    pub reverse: bool,
 }
 
 fn jobs(ctx: &Ctx) -> Vec<Job> {
@@ -215,35 +220,42 @@ fn jobs(ctx: &Ctx) -> Vec<Job> {
     let mut v = vec![];
     let h = |k: u32| rfcref::params_for_k(k).H;
     if checked {
-        v.push(Job { k: 2, near: if ctx.quick() { 12 } else { h(2) + 4 }, max_erased: 2, threshold: 250 });
+        v.push(Job { k: 2, near: if ctx.quick() { 12 } else { h(2) + 4 }, max_erased: 2, threshold: 250, reverse: false });
         if ctx.thorough() {
-            v.push(Job { k: 10, near: h(10) + 4, max_erased: 1, threshold: 250 });
-            v.push(Job { k: 10, near: h(10) + 4, max_erased: 1, threshold: 0 });
+            v.push(Job { k: 10, near: h(10) + 4, max_erased: 1, threshold: 250, reverse: false });
+            v.push(Job { k: 10, near: h(10) + 4, max_erased: 1, threshold: 0, reverse: false });
         }
         return v;
     }
     if ctx.quick() {
-        v.push(Job { k: 2, near: h(2) + 4, max_erased: 2, threshold: 250 });
-        v.push(Job { k: 4, near: 10, max_erased: 4, threshold: 0 });
-        v.push(Job { k: 10, near: h(10) + 4, max_erased: 1, threshold: 250 });
-        v.push(Job { k: 12, near: h(12) + 2, max_erased: 1, threshold: 0 });
+        v.push(Job { k: 2, near: h(2) + 4, max_erased: 2, threshold: 250, reverse: false });
+        v.push(Job { k: 4, near: 10, max_erased: 4, threshold: 0, reverse: false });
+        v.push(Job { k: 10, near: h(10) + 4, max_erased: 1, threshold: 250, reverse: false });
+        v.push(Job { k: 12, near: h(12) + 2, max_erased: 1, threshold: 0, reverse: false });
+        v.push(Job { k: 4, near: 10, max_erased: 4, threshold: 250, reverse: true });
+        v.push(Job { k: 10, near: 8, max_erased: 1, threshold: 250, reverse: true });
     } else {
+        v.push(Job { k: 2, near: h(2) + 4, max_erased: 2, threshold: 0, reverse: true });
+        v.push(Job { k: 4, near: h(4) + 4, max_erased: 4, threshold: 250, reverse: true });
+        v.push(Job { k: 10, near: h(10) + 4, max_erased: 1, threshold: 250, reverse: true });
+        v.push(Job { k: 12, near: h(12) + 2, max_erased: 1, threshold: 0, reverse: true });
+        v.push(Job { k: 26, near: h(26), max_erased: 1, threshold: 250, reverse: true });
         for k in [1u32, 2, 4] {
             for th in [250u32, 0] {
-                v.push(Job { k, near: h(k) + 4, max_erased: k as usize, threshold: th });
+                v.push(Job { k, near: h(k) + 4, max_erased: k as usize, threshold: th, reverse: false });
             }
         }
-        v.push(Job { k: 5, near: h(5) + 4, max_erased: 5, threshold: 250 });
-        v.push(Job { k: 9, near: h(9) + 4, max_erased: 1, threshold: 0 });
-        v.push(Job { k: 10, near: h(10) + 4, max_erased: 2, threshold: 250 });
-        v.push(Job { k: 10, near: h(10) + 4, max_erased: 1, threshold: 0 });
-        v.push(Job { k: 11, near: h(11) + 4, max_erased: 1, threshold: 250 });
-        v.push(Job { k: 12, near: h(12) + 4, max_erased: 1, threshold: 0 });
+        v.push(Job { k: 5, near: h(5) + 4, max_erased: 5, threshold: 250, reverse: false });
+        v.push(Job { k: 9, near: h(9) + 4, max_erased: 1, threshold: 0, reverse: false });
+        v.push(Job { k: 10, near: h(10) + 4, max_erased: 2, threshold: 250, reverse: false });
+        v.push(Job { k: 10, near: h(10) + 4, max_erased: 1, threshold: 0, reverse: false });
+        v.push(Job { k: 11, near: h(11) + 4, max_erased: 1, threshold: 250, reverse: false });
+        v.push(Job { k: 12, near: h(12) + 4, max_erased: 1, threshold: 0, reverse: false });
         for k in [13u32, 18, 19, 20, 26] {
-            v.push(Job { k, near: h(k) + 2, max_erased: 1, threshold: if k % 2 == 0 { 250 } else { 0 } });
+            v.push(Job { k, near: h(k) + 2, max_erased: 1, threshold: if k % 2 == 0 { 250 } else { 0 }, reverse: false });
         }
         for k in [46u32, 49, 55, 60, 101] {
-            v.push(Job { k, near: h(k), max_erased: 1, threshold: if k % 2 == 0 { 0 } else { 250 } });
+            v.push(Job { k, near: h(k), max_erased: 1, threshold: if k % 2 == 0 { 0 } else { 250 }, reverse: false });
         }
     }
     v
@@ -299,12 +311,16 @@ fn mid_jobs(ctx: &Ctx, st: &Stats) {
 
 fn enumerate(ctx: &Ctx, st: &Stats) {
     for j in jobs(ctx) {
-        let u = make_universe(j.k, standard_esis(j.k, j.near), j.threshold, j.max_erased);
+        let mut esis = standard_esis(j.k, j.near);
+        if j.reverse {
+            esis.reverse();
+        }
+        let u = make_universe(j.k, esis, j.threshold, j.max_erased);
         let before = st.counter("nodes");
         let m = Model { u: &u, st };
         explore_lattice(&m, 11, st);
         let nodes = st.counter("nodes") - before;
-        st.note(format!("K={} universe={} (source {}, near repair {}, far 4) max_erased_source={} sparse_threshold={} build={}: {} nodes", j.k, u.esis.len(), j.k, j.near, j.max_erased, j.threshold, build_tag(), nodes));
+        st.note(format!("K={} universe={} (source {}, near repair {}, far 4) max_erased_source={} sparse_threshold={} order={} build={}: {} nodes", j.k, u.esis.len(), j.k, j.near, j.max_erased, j.threshold, if j.reverse { "reverse (repair first)" } else { "canonical" }, build_tag(), nodes));
         if st.want_sample() {
             st.sample(json!({"K": j.k, "universe_esis": u.esis, "max_erased_source": j.max_erased, "sparse_threshold": j.threshold, "nodes": nodes, "example_node": "deliver ESIs 1..K-1 then repair K, K+1: decoder must answer iff rank = L"}));
         }
@@ -321,9 +337,9 @@ pub fn run(ctx: &Ctx) -> i32 {
     run_child_and_merge(ctx, &st, "RQ_BIN_CHECKED", "checked", &[]);
     finish(ctx, &st, Finish {
         level: "model_checking",
-        rule: "state graph of a real SourceBlockDecoder: nodes = decoder states reached by delivering a subset of a fixed packet universe (K source + H+4 near repair + 4 far repair ESIs) one packet per call in canonical order (clone per branch), all subsets with at most e erased source symbols (see notes for K, universe, e, back-end per job); at every node decode(..).is_some() must equal [all source present or rank_GF(256)(constraint matrix of the delivered ISIs incl. padding rows) = L] computed by an independent incremental echelon basis, and returned bytes must be the data. distinct_nontrivial = nodes where the solver actually ran (>= K symbols, not all source). Mid ladder: fixed erasure patterns x every subset of 6..13 repair symbols.".into(),
+        rule: "state graph of a real SourceBlockDecoder: nodes = decoder states reached by delivering a subset of a fixed packet universe (K source + H+4 near repair + 4 far repair ESIs) one packet per call in ascending (and, in the reverse jobs, descending) ESI order (clone per branch), all subsets with at most e erased source symbols (see notes for K, universe, e, back-end per job); at every node decode(..).is_some() must equal [all source present or rank_GF(256)(constraint matrix of the delivered ISIs incl. padding rows) = L] computed by an independent incremental echelon basis, and returned bytes must be the data. distinct_nontrivial = nodes where the solver actually ran (>= K symbols, not all source). Mid ladder: fixed erasure patterns x every subset of 6..13 repair symbols.".into(),
         exhaustive: false,
-        assumptions: vec!["reference tables transcribed from the pinned commit".into(), "arrival order inside a node is canonical (ascending ESI index); order independence is C08's".into()],
+        assumptions: vec!["reference tables transcribed from the pinned commit".into(), "arrival order is ascending ESI, or (reverse jobs) descending so that source symbols arrive after repair symbols and after failed solves; full order independence is C08's".into()],
         extra: Map::new(),
         must_be_nonzero: vec!["nodes", "decode_attempts_solver", "legit_failures_rank_deficient", "fastpath_entered", "fastpath_singular_but_full_system_regular", "answers_some", "mid_ladder_nodes", "checked/nodes"],
     }, replay)
